@@ -398,7 +398,16 @@ class SymCtx:
 
     def ensure(self, name, expr, cls='P', native=True):
         self.n_ensures += 1
-        v = self.I.eval_spec(expr, self.frame)
+        try:
+            v = self.I.eval_spec(expr, self.frame)
+        except PyRaise as pr:
+            # a post-condition that cannot even be evaluated (e.g. it packs a value the code let through although it
+            # is out of range, or indexes a packet that was never sent) does not hold on this path
+            r = self.path.check()
+            vals = self.model_values(self.path.last_model) if r == z3.sat else {}
+            self.sink.add(ObRecord(name, cls, 'failed' if r == z3.sat else 'undecided', 'z3', 0.0, values=vals, path_id=self.path_id,
+                                   expr=expr, detail='specification raised %r' % (pr.exc,)))
+            return
         self._sink(cls, name, v, {'expr': expr})
 
     def cover(self, name, expr):
